@@ -1056,3 +1056,106 @@ func ruleListDisks(rule string) ruleFn {
 		}
 	}
 }
+
+// ---------------------------------------------------------------------------
+// C09-ACTIONQ: a repeated start signal is queued, not refused
+// ---------------------------------------------------------------------------
+
+func ruleActionQueue(rule string) ruleFn {
+	return func(c *Ctx) {
+		c.Doc(rule, "replica.ActionChannel, the queue between the replica's REST 'start' action and its registration loop, is created with a constant capacity of at least 2: the controller signals the elected replica again whenever that replica registers while its first signal is still pending (ticker and signal race in the loop's select); Server.Start answers 'busy' (HTTP 500) when the queue is full, the controller takes that for a failed signal and drops the healthy, most up-to-date leader")
+		n := 0
+		for _, fn := range pkgFuncs(c.P, "replica") {
+			R := NewRenderer(fn)
+			eachInstr(fn, func(in ssa.Instruction) {
+				st, ok := in.(*ssa.Store)
+				if !ok {
+					return
+				}
+				g, ok := st.Addr.(*ssa.Global)
+				if !ok || g.Name() != "ActionChannel" {
+					return
+				}
+				n++
+				key := FnName(fn) + " | capacity of ActionChannel"
+				mk, ok := strip(st.Val).(*ssa.MakeChan)
+				if !ok {
+					c.Bad(rule, key, c.P.InstrPos(in), "ActionChannel is assigned "+R.V(st.Val)+", not a channel made here", nil)
+					return
+				}
+				if k, ok := intConst(mk.Size); ok && k >= 2 {
+					c.OK(rule, key, c.P.InstrPos(in), fmt.Sprintf("capacity %d", k), false)
+				} else {
+					c.Bad(rule, key, c.P.InstrPos(in), "capacity "+R.V(mk.Size)+": a start signal repeated while the first is pending is refused as 'busy'", nil)
+				}
+			})
+		}
+		if n == 0 {
+			c.Undecided(rule, "replica.ActionChannel | created", "", "no assignment of ActionChannel found")
+		}
+	}
+}
+
+// ---------------------------------------------------------------------------
+// *-REVERTRESTORE: volume.meta is not put back once the old head is gone
+// ---------------------------------------------------------------------------
+
+func ruleRevertRestore(rule string) ruleFn {
+	return func(c *Ctx) {
+		c.Doc(rule, "revert path (Server.Revert -> Replica.Revert -> revertDisk), typestate with interprocedural summaries: once revertDisk has unlinked the old head (rmDisk), no write of volume.meta from the instance's old r.info is reachable - a roll-back of the commit is possible only while the head it names still exists; after that point a failure (the reload) must leave the committed new chain on disk")
+		T := newTS(c.P)
+		T.Follow = func(g *ssa.Function) bool {
+			n := FnName(g)
+			return strings.Contains(n, "replica.") && !strings.Contains(n, "replica/")
+		}
+		nRm, nEnc := 0, 0
+		T.Prim = func(fn *ssa.Function, R *Renderer, in ssa.Instruction, st string) (string, bool) {
+			ci, ok := in.(ssa.CallInstruction)
+			if !ok || st == "BAD" {
+				return st, false
+			}
+			switch CalleeName(in) {
+			case fRep + "rmDisk":
+				if FnName(fn) == fRep+"revertDisk" || (isFreshFn(fn) && st == "reverting") {
+					return "unlinked", true
+				}
+			case fRep + "createNewHead":
+				if FnName(fn) == fRep+"revertDisk" && st == "idle" {
+					return "reverting", true
+				}
+			case fRep + "encodeToFile":
+				a := ci.Common().Args
+				if len(a) >= 3 && st == "unlinked" && R.V(a[1]) == "&$0.info" {
+					return "BAD", true
+				}
+			}
+			return st, false
+		}
+		if rd := c.Anchor(rule, fRep+"revertDisk"); rd != nil {
+			nRm = len(AnyCallsTo(rd, fRep+"rmDisk"))
+			nEnc = len(AnyCallsTo(rd, fRep+"encodeToFile"))
+		}
+		n := 0
+		for _, name := range []string{fRep + "Revert", fSrv + "Revert", fRep + "revertDisk"} {
+			fn := c.Anchor(rule, name)
+			if fn == nil {
+				continue
+			}
+			n++
+			bad := false
+			for _, e := range T.Summary(fn, "idle") {
+				if e.Out == "BAD" {
+					bad = true
+					c.Bad(rule, name+" | no roll-back of volume.meta after the old head was unlinked", c.P.Pos(fn.Pos()), "a path unlinks the old head and afterwards writes volume.meta from the old r.info: the file then names a head that no longer exists and the replica cannot be opened", c.witness(Witness{Path: T.WitnessFor(fn, e.Kind, e.Out)}))
+					break
+				}
+			}
+			if !bad {
+				c.OK(rule, name+" | no roll-back of volume.meta after the old head was unlinked", c.P.Pos(fn.Pos()), "no exit in state BAD", true)
+			}
+		}
+		if n < 3 || nRm < 1 || nEnc < 1 {
+			c.Undecided(rule, "vacuity-floor", "", fmt.Sprintf("%d functions, %d rmDisk, %d encodeToFile in revertDisk", n, nRm, nEnc))
+		}
+	}
+}
